@@ -14,6 +14,8 @@ package obiapat
 //   part D  12 long patterns (8,20,32,63,64 symbols, all IUPAC codes): every placement of a copy with 0..k edits
 //           (substitution / insertion / deletion at every position) inside 0..3 nt contexts
 //   part E  recycled ApatSequence histories (stale hit stacks / data buffers)
+//   part F  the sequence predicate IsPatternMatchSequence (one strand / both strands)
+// (obialign.LocatePattern, the DP that re-aligns indel hits, has its own harness in pkg__obialign.)
 // The oracle demands only what the property states (see c10ctx.check).
 
 import (
@@ -582,8 +584,6 @@ func (c *c10ctx) check(cp *c10comp, begin, length int, doRC bool) {
 	realignedSuffix := ""
 	if !p.plain {
 		realignedSuffix = ":non-plain-pattern"
-	} else if p.hasV {
-		realignedSuffix = ":pattern-has-v"
 	}
 	validSpan := func(api string, h [3]int) bool { // indel mode, re-aligned results
 		if !p.plain {
